@@ -98,7 +98,8 @@ def gen_case(rng, tier, g):
             # purposes must not swallow a source failure)
             'exc_kinds': rng.sample(SOURCE_ERROR_KINDS,
                                     rng.choice([1, 2, 3])),
-            'read_via': rng.choice(['conn', 'name', 'mkcurs', 'cursor'])}
+            'read_via': rng.choice(['conn', 'name', 'mkcurs', 'cursor']),
+            'attach': rng.random() < 0.3}
 
 
 class _Bad(Exception):
@@ -175,6 +176,14 @@ def _check(path, cols, model, what):
                    % (what, got, model))
 
 
+def _safe_load(e, op, src, dbo, commit, what):
+    try:
+        _load(e, op, src, dbo, commit)
+    except Exception as ex:
+        raise _Bad('unexpected-exception', '%s raised %s: %s'
+                   % (what, type(ex).__name__, ex))
+
+
 def _one(e, case, path, op, handle, commit, fault, log):
     """One load under one fault plan on a fresh database.  Returns the
     number of faults that actually fired."""
@@ -182,20 +191,38 @@ def _one(e, case, path, op, handle, commit, fault, log):
     prior = [tuple(r) for r in dec_table(case['prior'])]
     table = dec_table(case['table'])
     other = dec_table(case['other'])
-    _setup(path, cols, prior)
+    attach = bool(case.get('attach')) and handle != 'name'
+    tpath = path
+    bystander = None
+    if attach:
+        # the target table lives in an attached database; a table of the
+        # same name in the default schema must stay exactly as it is
+        tpath = path + '.aux'
+        bystander = [tuple(r) for r in reversed(prior)] + \
+            _as_rows(cols, other)[:1]
+        _setup(path, cols, bystander)
+        _setup(tpath, cols, prior)
+    else:
+        _setup(path, cols, prior)
     model = list(prior)
-    what = '%s(%s handle, commit=%r, fault=%r, prefix=%s)' % (
-        op, handle, commit, fault, case['prefix'])
+    what = '%s(%s handle, commit=%r, fault=%r, prefix=%s%s)' % (
+        op, handle, commit, fault, case['prefix'],
+        ', schema=aux on an attached database' if attach else '')
     caller = None if handle == 'name' else sqlite3.connect(path)
+    saved_schema = _SCHEMA[0]
+    if attach:
+        caller.execute('ATTACH DATABASE ? AS aux', (tpath,))
+        _SCHEMA[0] = 'aux'
     fired = 0
     try:
         # ---- history prefix (through the same kind of handle) ----------
         if case['prefix'] == 'uncommitted-then-commit' and caller is not None:
-            _load(e, 'appenddb', other, _mk_dbo(handle, path, caller), False)
-            _check(path, cols, model, what + ' [prefix: append commit=False]')
+            _safe_load(e, 'appenddb', other, _mk_dbo(handle, path, caller),
+                       False, what + ' [prefix]')
+            _check(tpath, cols, model, what + ' [prefix: append commit=False]')
             caller.commit()
             model = model + _as_rows(cols, other)
-            _check(path, cols, model, what + ' [prefix: caller commit]')
+            _check(tpath, cols, model, what + ' [prefix: caller commit]')
         elif case['prefix'] == 'failed-then-rollback':
             src0 = SimTable(other, mode='copy')
             src0.arm(len(other) - 1)
@@ -206,7 +233,12 @@ def _one(e, case, path, op, handle, commit, fault, log):
                            'injected source failure did not propagate')
             except SimSourceError:
                 fired += 1
-            _check(path, cols, model, what + ' [prefix: failed todb]')
+            except _Bad:
+                raise
+            except Exception as ex:
+                raise _Bad('unexpected-exception', '%s [prefix] raised %s: '
+                           '%s' % (what, type(ex).__name__, ex))
+            _check(tpath, cols, model, what + ' [prefix: failed todb]')
             if caller is not None:
                 caller.rollback()
         # ---- the load under test ---------------------------------------
@@ -248,18 +280,18 @@ def _one(e, case, path, op, handle, commit, fault, log):
             else model + _as_rows(cols, table)
         if raised is not None:
             # nothing is committed, whatever the commit flag
-            _check(path, cols, model, what + ' [after the failed call]')
+            _check(tpath, cols, model, what + ' [after the failed call]')
             if caller is not None:
                 caller.rollback()
-                _check(path, cols, model, what + ' [after caller rollback]')
+                _check(tpath, cols, model, what + ' [after caller rollback]')
         elif commit:
             model = new
-            _check(path, cols, model, what + ' [after the call]')
+            _check(tpath, cols, model, what + ' [after the call]')
             # and fromdb returns the same rows
-            rd = sqlite3.connect(path)
+            rd = sqlite3.connect(tpath)
             try:
                 via = case.get('read_via', 'conn')
-                rh = {'conn': rd, 'name': path,
+                rh = {'conn': rd, 'name': tpath,
                           'cursor': rd.cursor(),
                           'mkcurs': (lambda: rd.cursor())}[via]
                 view = e.fromdb(rh, 'select %s from t order by rowid'
@@ -280,17 +312,22 @@ def _one(e, case, path, op, handle, commit, fault, log):
                            'expected %r' % (what, got,
                                             [tuple(cols)] + model))
         else:
-            _check(path, cols, model, what + ' [after the call, commit=False]')
+            _check(tpath, cols, model, what + ' [after the call, commit=False]')
             if caller is not None:
                 caller.commit()
                 model = new
-                _check(path, cols, model, what + ' [after caller commit]')
+                _check(tpath, cols, model, what + ' [after caller commit]')
         # ---- follow-up load: nothing of a failed load may leak ----------
-        _load(e, 'appenddb', other, _mk_dbo(handle, path, caller)
-              if caller is not None else path, True)
+        _safe_load(e, 'appenddb', other, _mk_dbo(handle, path, caller)
+                   if caller is not None else path, True,
+                   what + ' [follow-up appenddb]')
         model = model + _as_rows(cols, other)
-        _check(path, cols, model, what + ' [follow-up appenddb commit=True]')
+        _check(tpath, cols, model, what + ' [follow-up appenddb commit=True]')
+        if bystander is not None:
+            _check(path, cols, bystander, what + ' [the table of the same '
+                   'name in the default schema]')
     finally:
+        _SCHEMA[0] = saved_schema
         if caller is not None:
             caller.close()
     return fired
@@ -309,10 +346,18 @@ def run_case(case):
     fired = {'source-raise': 0, 'malformed-row': 0}
     try:
         with devices.TempSandbox() as sb:
-            path = os.path.join(sb.path, 'db.sqlite')
             for op, handle, commit in case['combos']:
                 for fault in faults:
+                    # a fresh file name for every load: nothing an earlier
+                    # load left behind (in the process, not on disk) may
+                    # refer to this database
+                    path = os.path.join(sb.path, 'db%d.sqlite' % nruns)
                     f = _one(e, case, path, op, handle, commit, fault, log)
+                    for fn in os.listdir(sb.path):
+                        try:
+                            os.unlink(os.path.join(sb.path, fn))
+                        except OSError:
+                            pass
                     nruns += 1
                     if fault is not None:
                         fired['source-raise' if fault[0] == 'raise'
@@ -367,7 +412,8 @@ def shrink_candidates(case):
         c = copy.deepcopy(case)
         c['prior'] = c['prior'][:-1]
         yield c
-    for k, v in (('prefix', 'none'), ('pipeline', False)):
+    for k, v in (('prefix', 'none'), ('pipeline', False), ('attach', False),
+                 ('schema', None)):
         if case[k] != v:
             c = copy.deepcopy(case)
             c[k] = v
